@@ -651,4 +651,275 @@ theorem direct_to_points {t : Str} (hpre : ∀ x ∈ ordStr ++ ordBool ++ ordPat
 
 theorem sep_of {l : Char} (h1 : isDigit l = false) (h2 : l ≠ '.') : IsSep l := ⟨h1, h2⟩
 
+/-! ## finite decimal numerals `[-]digits.digits` -/
+
+/-- the text of a decimal numeral: integer part `a`, fraction digits `ds` -/
+def showDec (neg : Bool) (a : Nat) (ds : Str) : Str := (if neg then ['-'] else []) ++ (showNat a ++ '.' :: ds)
+
+theorem dropUnderscores_none_free : ∀ (s : Str) (p : Char), p ≠ '_' → (∀ c ∈ s, c ≠ '_') →
+    dropUnderscores s p = some s := by
+  intro s
+  induction s with
+  | nil => intro p hp _; simp [dropUnderscores, hp]
+  | cons c cs ih =>
+    intro p hp h
+    have hc : c ≠ '_' := h c (List.mem_cons_self ..)
+    have e1 : (c == '_') = false := by simpa using hc
+    have e2 : (p == '_') = false := by simpa using hp
+    rw [dropUnderscores]
+    simp only [e1, e2, Bool.false_eq_true, if_false, Bool.false_and]
+    rw [ih c hc (fun x hx => h x (List.mem_cons_of_mem _ hx))]; rfl
+
+theorem ciPrefix_digit_head {p : Str} {c : Char} {cs : Str} (hc : isDigit c = true)
+    (hp : ∃ q qs, p = q :: qs ∧ isDigit q = false ∧ lowerC c ≠ q) : ciPrefix p (c :: cs) = none := by
+  obtain ⟨q, qs, rfl, _, hne⟩ := hp
+  unfold ciPrefix
+  simp [lower, hne]
+
+theorem lowerC_digit {c : Char} (h : isDigit c = true) : lowerC c = c := (digit_facts h).lower
+
+theorem floatPrefix_unsigned (neg : Bool) (a : Nat) (ds : Str) (hds : ∀ c ∈ ds, isDigit c = true) :
+    (match ciPrefix "inf".toList (showNat a ++ '.' :: ds) with
+      | some r => (match ciPrefix "inity".toList r with
+          | some r2 => some (FloatV.inf neg, r2)
+          | none => some (FloatV.inf neg, r))
+      | none =>
+      match ciPrefix "nan".toList (showNat a ++ '.' :: ds) with
+      | some r => some (FloatV.nan, r)
+      | none =>
+        let s1 := showNat a ++ '.' :: ds
+        let ip := s1.takeWhile isDigit
+        let r := s1.dropWhile isDigit
+        let (fp, r) := match r with
+          | '.' :: r' => (r'.takeWhile isDigit, r'.dropWhile isDigit)
+          | _ => ([], r)
+        if ip.isEmpty && fp.isEmpty then none
+        else
+          let m := natOfDigits (ip ++ fp)
+          let e0 : Int := - (fp.length : Int)
+          let (e, r) := match r with
+            | c :: r' =>
+              if c == 'e' || c == 'E' then
+                let (eneg, r'') := match r' with
+                  | '-' :: q => (true, q)
+                  | '+' :: q => (false, q)
+                  | _ => (false, r')
+                let ed := r''.takeWhile isDigit
+                if ed.isEmpty then (e0, r)
+                else ((if eneg then e0 - (natOfDigits ed : Int) else e0 + (natOfDigits ed : Int)), r''.dropWhile isDigit)
+              else (e0, r)
+            | [] => (e0, r)
+          some (FloatV.fin { neg := neg, mant := m, exp := e }, r))
+      = some (FloatV.fin { neg := neg, mant := natOfDigits (showNat a ++ ds), exp := - (ds.length : Int) }, []) := by
+  obtain ⟨d, tl, e, hd⟩ := showNat_cons a
+  have hi : ciPrefix "inf".toList (showNat a ++ '.' :: ds) = none := by
+    rw [e, List.cons_append]
+    exact ciPrefix_digit_head hd ⟨'i', _, rfl, by decide, by rw [lowerC_digit hd]; intro h; subst h; revert hd; decide⟩
+  have hn : ciPrefix "nan".toList (showNat a ++ '.' :: ds) = none := by
+    rw [e, List.cons_append]
+    exact ciPrefix_digit_head hd ⟨'n', _, rfl, by decide, by rw [lowerC_digit hd]; intro h; subst h; revert hd; decide⟩
+  have h1 := takeWhile_digits (showNat_digits a) (rest := '.' :: ds) (fun c r h => by cases h; decide)
+  have h2 := takeWhile_digits hds (rest := []) (fun c r h => by cases h)
+  simp only [List.append_nil] at h2
+  rw [hi, hn]
+  simp only [h1.1, h1.2, h2.1, h2.2]
+  have hne : (showNat a).isEmpty = false := by rw [e]; rfl
+  simp [hne]
+
+theorem splitSign_showDec (neg : Bool) (a : Nat) (ds : Str) :
+    splitSign (showDec neg a ds) = (neg, showNat a ++ '.' :: ds) := by
+  cases neg with
+  | true => simp [showDec, splitSign_minus]
+  | false =>
+    obtain ⟨d, tl, e, hd⟩ := showNat_cons a
+    have df := digit_facts hd
+    simp only [showDec, Bool.false_eq_true, if_false, List.nil_append]
+    rw [e, List.cons_append, splitSign_other _ df.minus df.plus]
+
+theorem floatPrefix_showDec (neg : Bool) (a : Nat) (ds : Str) (hds : ∀ c ∈ ds, isDigit c = true) :
+    floatPrefix (showDec neg a ds) =
+      some (FloatV.fin { neg := neg, mant := natOfDigits (showNat a ++ ds), exp := - (ds.length : Int) }, []) := by
+  unfold floatPrefix
+  rw [splitSign_showDec]
+  exact floatPrefix_unsigned neg a ds hds
+
+theorem showDec_chars (neg : Bool) (a : Nat) (ds : Str) (hds : ∀ c ∈ ds, isDigit c = true) :
+    ∀ c ∈ showDec neg a ds, isDigit c = true ∨ c = '.' ∨ c = '-' := by
+  intro c hc
+  unfold showDec at hc
+  rcases List.mem_append.mp hc with h | h
+  · cases neg with
+    | true => simp at h; exact Or.inr (Or.inr h)
+    | false => simp at h
+  · rcases List.mem_append.mp h with h | h
+    · exact Or.inl (showNat_digits a c h)
+    · rcases List.mem_cons.mp h with rfl | h
+      · exact Or.inr (Or.inl rfl)
+      · exact Or.inl (hds c h)
+
+theorem char_plain {c : Char} (h : isDigit c = true ∨ c = '.' ∨ c = '-') :
+    c ≠ '_' ∧ isPySpace c = false ∧ isCSpace c = false := by
+  rcases h with h | rfl | rfl
+  · have d := digit_facts h; exact ⟨d.us, d.pySpace, d.cSpace⟩
+  · decide
+  · decide
+
+theorem showDec_cons (neg : Bool) (a : Nat) (ds : Str) : ∃ c cs, showDec neg a ds = c :: cs := by
+  cases neg with
+  | true => exact ⟨'-', _, rfl⟩
+  | false =>
+    obtain ⟨d, tl, e, _⟩ := showNat_cons a
+    exact ⟨d, tl ++ '.' :: ds, by simp [showDec, e]⟩
+
+/-- `float("[-]digits.digits")` is the exact decimal the numeral denotes -/
+theorem pyFloat_showDec (neg : Bool) (a : Nat) (ds : Str) (hds : ∀ c ∈ ds, isDigit c = true) :
+    pyFloat (showDec neg a ds) =
+      some (FloatV.fin { neg := neg, mant := natOfDigits (showNat a ++ ds), exp := - (ds.length : Int) }) := by
+  have hch := showDec_chars neg a ds hds
+  obtain ⟨c, cs, e⟩ := showDec_cons neg a ds
+  have hstrip : stripBy (numSpace (showDec neg a ds)) (showDec neg a ds) = showDec neg a ds := by
+    rw [e]
+    rw [e] at hch
+    apply stripBy_eq_self
+    · exact numSpace_false (char_plain (hch c (List.mem_cons_self ..))).2.1 (char_plain (hch c (List.mem_cons_self ..))).2.2
+    · intro x hx
+      have := hch x (List.mem_of_getLast? hx)
+      exact numSpace_false (char_plain this).2.1 (char_plain this).2.2
+  unfold pyFloat
+  rw [hstrip, dropUnderscores_none_free _ 'x' (by decide) (fun c hc => (char_plain (hch c hc)).1)]
+  simp only []
+  rw [floatPrefix_showDec neg a ds hds]
+
+theorem intDigits_dot (base : Nat) (hb : 10 ≤ base) : ∀ (dg : Str), (∀ c ∈ dg, isDigit c = true) →
+    ∀ (rest : Str) (acc : Nat) (pu any : Bool), intDigits base (dg ++ '.' :: rest) acc pu any = none := by
+  intro dg
+  induction dg with
+  | nil => intro _ rest acc pu any; simp [intDigits, show hexVal? '.' = none by decide]
+  | cons c cs ih =>
+    intro h rest acc pu any
+    have p := digit_facts (h c (List.mem_cons_self ..))
+    have hu : (c == '_') = false := by simpa using p.us
+    have hlt : digitVal c < base := by have := p.lt; omega
+    rw [List.cons_append, intDigits, hu]
+    simp only [Bool.false_eq_true, if_false, p.hex, hlt, if_true]
+    exact ih (fun x hx => h x (List.mem_cons_of_mem _ hx)) rest _ _ _
+
+theorem pyInt_showDec (base : Nat) (hb : base = 10 ∨ base = 16) (neg : Bool) (a : Nat) (ds : Str)
+    (hds : ∀ c ∈ ds, isDigit c = true) : pyInt base (showDec neg a ds) = none := by
+  have hch := showDec_chars neg a ds hds
+  obtain ⟨c, cs, e⟩ := showDec_cons neg a ds
+  have hstrip : stripBy (numSpace (showDec neg a ds)) (showDec neg a ds) = showDec neg a ds := by
+    rw [e]
+    rw [e] at hch
+    apply stripBy_eq_self
+    · exact numSpace_false (char_plain (hch c (List.mem_cons_self ..))).2.1 (char_plain (hch c (List.mem_cons_self ..))).2.2
+    · intro x hx
+      have := hch x (List.mem_of_getLast? hx)
+      exact numSpace_false (char_plain this).2.1 (char_plain this).2.2
+  unfold pyInt
+  rw [hstrip, splitSign_showDec]
+  simp only []
+  have hbody : pyIntAbs base (showNat a ++ '.' :: ds) = none := by
+    obtain ⟨d, tl, e2, hd⟩ := showNat_cons a
+    have df := digit_facts hd
+    have h0 : stripPrefix16 base (showNat a ++ '.' :: ds) = (showNat a ++ '.' :: ds, false) := by
+      unfold stripPrefix16
+      split
+      · rename_i x r heq
+        -- the second character is a digit or the dot: not an `x`
+        have hx : x ≠ 'x' ∧ x ≠ 'X' := by
+          rw [e2] at heq
+          cases tl with
+          | nil => simp at heq; rw [← heq.2.1]; decide
+          | cons t2 tl2 =>
+            simp at heq
+            have : isDigit t2 = true := showNat_digits a t2 (by rw [e2]; simp)
+            rw [← heq.2.1]
+            constructor <;> (intro h; rw [h] at this; revert this; decide)
+        simp [hx.1, hx.2]
+      · rfl
+    have h1 : skipOneUnderscore false (showNat a ++ '.' :: ds) = showNat a ++ '.' :: ds := by
+      unfold skipOneUnderscore; split <;> simp
+    unfold pyIntAbs
+    rw [h0]; simp only []; rw [h1]
+    unfold intBody
+    have hi := intDigits_dot base (by rcases hb with rfl | rfl <;> omega) (showNat a) (showNat_digits a) ds 0 false false
+    rw [e2] at hi ⊢
+    simp only [List.cons_append] at hi ⊢
+    split
+    · rfl
+    · exact hi
+  rw [hbody]; rfl
+
+theorem latLon_showDec (seps : Str) (hs : seps.contains '.' = false) (neg : Bool) (a : Nat) (ds : Str) :
+    latLon seps (showDec neg a ds) = none := by
+  unfold latLon
+  cases neg with
+  | true =>
+    have : digits1 (showDec true a ds) = none := by
+      simp [showDec, digits1, show isDigit '-' = false by decide]
+    rw [this]
+  | false =>
+    have := digits1_digits (showNat_digits a) (showNat_ne_nil a) (rest := '.' :: ds) (fun c r e => by cases e; decide)
+    have hs' : ¬ '.' ∈ seps := by simpa using hs
+    simp [showDec, this, hs']
+
+theorem numTok_showDec (neg : Bool) (a : Nat) (ds : Str) (hds : ∀ c ∈ ds, isDigit c = true) :
+    ∃ v, numTok (showDec neg a ds) = some (v, []) := by
+  unfold numTok
+  rw [splitSign_showDec]
+  simp only []
+  have := digits1_digits (showNat_digits a) (showNat_ne_nil a) (rest := '.' :: ds) (fun c r e => by cases e; decide)
+  rw [this]
+  have h2 := takeWhile_digits hds (rest := []) (fun c r h => by cases h)
+  simp only [List.append_nil] at h2
+  refine ⟨decOf neg (showNat a) (List.takeWhile isDigit ds), ?_⟩
+  simp [h2.2]
+
+theorem point_showDec (neg : Bool) (a : Nat) (ds : Str) (hds : ∀ c ∈ ds, isDigit c = true) :
+    (∀ opt s1 s2, point2 opt s1 s2 (showDec neg a ds) = none) ∧
+    (∀ s1 s2 s3, point3 s1 s2 s3 (showDec neg a ds) = none) := by
+  obtain ⟨v, hv⟩ := numTok_showDec neg a ds hds
+  constructor
+  · intro opt s1 s2; unfold point2; simp [hv]
+  · intro s1 s2 s3; unfold point3; simp [hv]
+
+theorem dec_declines (neg : Bool) (a : Nat) (ds : Str) (hds : ∀ c ∈ ds, isDigit c = true) :
+    ∀ r ∈ ordStr ++ ordBool ++ ordPath ++ ordCoord ++ ordPoint, r (showDec neg a ds) = none := by
+  obtain ⟨c, cs, e⟩ := showDec_cons neg a ds
+  have hf : HeadFacts c := by
+    cases neg with
+    | true => simp [showDec] at e; rw [← e.1]; exact headFacts_minus
+    | false =>
+      obtain ⟨d, tl, e2, hd⟩ := showNat_cons a
+      simp [showDec, e2] at e; rw [← e.1]; exact headFacts_digit hd
+  obtain ⟨hp2, hp3⟩ := point_showDec neg a ds hds
+  intro r hr
+  rw [List.append_assoc (ordStr ++ ordBool ++ ordPath), List.mem_append] at hr
+  rcases hr with hr | hr
+  · rw [e]; exact head_declines cs hf r hr
+  · simp only [ordCoord, ordPoint, List.cons_append, List.nil_append, List.mem_cons,
+      List.not_mem_nil, or_false] at hr
+    rcases hr with rfl | rfl | rfl | rfl | rfl | rfl | rfl | rfl
+    · simp [rLatLon, latLon_showDec sepNE (by decide)]
+    · simp [rLatLon, latLon_showDec sepSW (by decide)]
+    · simp [rPoint2, hp2]
+    · simp [rPoint2, hp2]
+    · simp [rPoint2, hp2]
+    · simp [rPoint3, hp3]
+    · simp [rPoint3, hp3]
+    · simp [rPoint3, hp3]
+
+/-- the exact decimal a numeral denotes -/
+def decValue (neg : Bool) (a : Nat) (ds : Str) : FloatV :=
+  .fin { neg := neg, mant := natOfDigits (showNat a ++ ds), exp := - (ds.length : Int) }
+
+theorem firstOf_showDec {pre : List Recog}
+    (h : ∀ r ∈ pre, r ∈ ordStr ++ ordBool ++ ordPath ++ ordCoord ++ ordPoint)
+    (neg : Bool) (a : Nat) (ds : Str) (hds : ∀ c ∈ ds, isDigit c = true) :
+    firstOf (pre ++ ordNum) (showDec neg a ds) = .ok (.float (decValue neg a ds)) := by
+  rw [firstOf_append_none (fun r hr => dec_declines neg a ds hds r (h r hr))]
+  simp [ordNum, firstOf_cons, rInt, rFloat, pyInt_showDec 10 (Or.inl rfl) neg a ds hds,
+    pyInt_showDec 16 (Or.inr rfl) neg a ds hds, pyFloat_showDec neg a ds hds, decValue]
+
 end Ioflo.Literal
